@@ -16,6 +16,7 @@ import json
 import re
 
 import vlib
+import _tlcout
 
 
 def run(c):
@@ -27,10 +28,8 @@ def run(c):
         trace = c.scratch + "/beacon.ndjson"
         c.run_driver(drv, ["-n", 6000 if c.thorough else 500, "-out", trace])
     r = c.validate("BeaconingTrace", "BeaconingTrace.cfg", trace, timeout=3000)
+    drift = _tlcout.renorm(r)
     c.judge_trace(r, trace)
-    drift = {}
-    for m in re.finditer(r'<<"VERIF-DRIFT", (\d+), "([^"]*)">>', r.out):
-        drift[m.group(2)] = drift.get(m.group(2), 0) + 1
     if drift:
         c.notes.append("MODEL-DRIFT (not a verdict): %s" % drift)
     st = r.stats
